@@ -262,12 +262,19 @@ def random_edit(r, nb, newfams=(7, 8, 21, 22)):
         j = r.randrange(n)
         cells.insert(j, cells.pop(i))
         label = ("Move", i, j)
-    elif k < 0.38:
+    elif k < 0.36:
         i = r.randrange(n)
         c = copy.deepcopy(cells[i])
         c["cid"] = fresh
         cells.insert(i + 1, c)
         label = ("Duplicate", i)
+    elif k < 0.38:
+        # replace a cell by a new one (removal + insertion at one position)
+        i = r.randrange(n)
+        kind = r.choice(["code", "markdown"])
+        cells[i] = {"cid": fresh, "fam": r.choice(newfams), "kind": kind, "src": r.choice([0, 1]),
+                    "outs": 1 if kind == "code" else 0, "md": 0, "ec": 1 if kind == "code" else 0, "att": 0}
+        label = ("Replace", i)
     elif k < 0.40:
         i = r.randrange(n)
         cells[i]["cid"] = fresh + r.randint(0, 3) * 7      # both sides may re-id the same cell differently
